@@ -209,6 +209,20 @@ class WhileTrue(ast.NodeTransformer):
         return node
 
 
+def _replace_node(tree, old, new):
+    """a copy of `tree` in which the node `old` (by identity) is replaced by `new`"""
+    if tree is old:
+        return new
+    if isinstance(tree, ast.AST):
+        c = copy.copy(tree)
+        for f, v in ast.iter_fields(tree):
+            setattr(c, f, _replace_node(v, old, new))
+        return c
+    if isinstance(tree, list):
+        return [_replace_node(x, old, new) for x in tree]
+    return tree
+
+
 def normalize_function(fn):
     fn = copy.deepcopy(fn)
     fn = expand_aliases(fn)
@@ -546,7 +560,7 @@ class MethodTr:
             a = e.args[0]
             if is_self_attr(a, "_pq"):
                 return f"(PQ.len {env.s}.q)", "nat"
-            x, tx = self.pure(a, env)
+            x, tx = self.pure_shape(a, env)
             if isinstance(tx, tuple) and tx[0] == "list":
                 return f"{x}.length", "nat"
             raise Unsupported("len() of a non-list")
@@ -617,12 +631,21 @@ class MethodTr:
         return out
 
     # -- conditions -> Prop text
+    def pure_shape(self, e, env):
+        """like `pure`, for uses that only look at the length of a list (truth value, len()): a list of
+        references that died with a restructuring of the heap array is still a list of that length"""
+        if isinstance(e, ast.Name) and e.id in env.vars and isinstance(env.vars[e.id].ty, tuple) \
+                and env.vars[e.id].ty[0] == "list":
+            v = env.vars[e.id]
+            return v.lean, v.ty
+        return self.pure(e, env)
+
     def truth(self, e, env):
         if is_self_attr(e, "_pq"):
             return f"0 < PQ.len {env.s}.q"
         if isinstance(e, ast.Constant) and isinstance(e.value, bool):
             return "True" if e.value else "False"
-        x, t = self.pure(e, env)
+        x, t = self.pure_shape(e, env)
         if t == "bool":
             return f"{x} = true"
         if t in ("nat", "int", "rat", "num"):
@@ -641,6 +664,12 @@ class MethodTr:
             return "(" + op.join(f"({self.cond(v, env)})" for v in e.values) + ")"
         if isinstance(e, ast.Compare) and len(e.ops) == 1:
             op, r = e.ops[0], e.comparators[0]
+            if isinstance(op, (ast.Is, ast.IsNot)) and isinstance(r, ast.Constant) and isinstance(r.value, bool):
+                x, t = self.pure(e.left, env)
+                if t != "bool":
+                    raise Unsupported(f"`is {r.value}` test of a {t}")
+                b = "true" if r.value else "false"
+                return f"{x} = {b}" if isinstance(op, ast.Is) else f"{x} ≠ {b}"
             if isinstance(op, (ast.Is, ast.IsNot)):
                 if not (isinstance(r, ast.Constant) and r.value is None):
                     raise Unsupported("`is` with something other than None")
@@ -1120,9 +1149,52 @@ class MethodTr:
                 return False
         return True
 
+    def hoist_test(self, st, env, kk):
+        """`if self.m(…):` / `if not self._pq.pop():` …: the one call with side effects in the test is
+        evaluated first (the test must not be able to skip it: no and/or/conditional around it)"""
+        calls = [n for n in ast.walk(st.test) if isinstance(n, ast.Call) and (is_pq_call(n) or is_sibling_call(n))]
+        outer = [c for c in calls if not any(c is not d and any(c is x for x in ast.walk(d)) for d in calls)]
+        if len(outer) != 1:
+            raise Unsupported("if-test with several calls that have side effects")
+        call = outer[0]
+        tst = st.test
+        if isinstance(tst, ast.UnaryOp) and isinstance(tst.op, ast.Not) and isinstance(tst.operand, (ast.BoolOp, ast.UnaryOp)):
+            return self.stmt_if(ast.If(tst.operand, st.orelse or [ast.Pass()], st.body), env, kk)
+        if isinstance(tst, ast.BoolOp):
+            # Python's short-circuit evaluation, spelt out: `if A and B: X else: Y` = `if A: (if B: X else: Y) else: Y`
+            first, rest = tst.values[0], tst.values[1:]
+            rest_t = rest[0] if len(rest) == 1 else ast.BoolOp(tst.op, rest)
+            inner = ast.If(rest_t, st.body, st.orelse)
+            if isinstance(tst.op, ast.And):
+                return self.stmt_if(ast.If(first, [inner], st.orelse), env, kk)
+            return self.stmt_if(ast.If(first, st.body, [inner]), env, kk)
+        for n in ast.walk(st.test):
+            if isinstance(n, (ast.BoolOp, ast.IfExp)) and any(x is call for x in ast.walk(n)):
+                raise Unsupported("a call with side effects under and/or in an if-test")
+
+        def k(x, ty, env2):
+            nm = "test__"
+            lines, env3 = self.bind_local(nm, x, ty, env2) if nm not in env2.vars else ([], env2)
+            if not lines:
+                raise Unsupported("nested hoisted tests")
+
+            new_if = copy.copy(st)
+            new_if.test = _replace_node(st.test, call, ast.Name(nm, ast.Load()))
+
+            def drop(f):
+                def g(env4, *a):
+                    env4 = env4.copy()
+                    env4.vars.pop(nm, None)
+                    return f(env4, *a)
+                return g
+            kk2 = K(drop(kk.fall), drop(kk.ret), drop(kk.exc), drop(kk.cont) if kk.cont else None,
+                    drop(kk.brk) if kk.brk else None)
+            return lines + self.stmt_if(new_if, env3, kk2)
+        return self.eval(call, env, kk, k)
+
     def stmt_if(self, st, env, kk):
         if self.effectful(st.test):
-            raise Unsupported("if-test with side effects")
+            return self.hoist_test(st, env, kk)
         names = list(dict.fromkeys(self.assigned_names(st.body + st.orelse)))
         if names and self.simple_block(st.body) and self.simple_block(st.orelse) \
                 and all(n in env.vars and n != "__yield__" for n in names):
